@@ -1047,6 +1047,114 @@ v("C03", "toheaders-skip-empty-values", "httpgrpc/io.go",
 			}
 			if isBin {""", "R5", "only-reserved-filter", "empty metadata values are dropped")
 
+# ------------------------------------------------------------------ C11
+v("C11", "no-method-check-stream", "httpgrpc/server.go",
+  """		defer drainAndClose(r.Body)
+		if r.Method != "POST" {
+			w.Header().Set("Allow", "POST")
+			writeError(w, http.StatusMethodNotAllowed)
+			return
+		}
+
+		contentType := r.Header.Get("Content-Type")
+		codec := getStreamingCodec(contentType)""", """		defer drainAndClose(r.Body)
+
+		contentType := r.Header.Get("Content-Type")
+		codec := getStreamingCodec(contentType)""", "R1", "post", "GET requests run streaming handlers")
+v("C11", "method-check-allows-put", "httpgrpc/server.go",
+  """		defer drainAndClose(r.Body)
+		if r.Method != "POST" {
+			w.Header().Set("Allow", "POST")
+			writeError(w, http.StatusMethodNotAllowed)
+			return
+		}
+
+		contentType := r.Header.Get("Content-Type")
+		codec := getUnaryCodec(contentType)""", """		defer drainAndClose(r.Body)
+		if r.Method != "POST" && r.Method != "PUT" {
+			w.Header().Set("Allow", "POST")
+			writeError(w, http.StatusMethodNotAllowed)
+			return
+		}
+
+		contentType := r.Header.Get("Content-Type")
+		codec := getUnaryCodec(contentType)""", "R1", "post", "PUT accepted for unary calls")
+v("C11", "wrong-status-for-bad-headers", "httpgrpc/server.go",
+  """		ctx, cancel, err := contextFromHeaders(ctx, r.Header)
+		if err != nil {
+			writeError(w, http.StatusBadRequest)
+			return
+		}
+		defer cancel()
+
+		w.Header().Set("Content-Type", contentType)""", """		ctx, cancel, err := contextFromHeaders(ctx, r.Header)
+		if err != nil {
+			writeError(w, http.StatusInternalServerError)
+			return
+		}
+		defer cancel()
+
+		w.Header().Set("Content-Type", contentType)""", "R1", "reject-headers", "undecodable headers answered 500")
+v("C11", "header-error-ignored", "httpgrpc/server.go",
+  """		ctx, cancel, err := contextFromHeaders(ctx, r.Header)
+		if err != nil {
+			writeError(w, http.StatusBadRequest)
+			return
+		}
+		defer cancel()
+
+		req, err := ioutil.ReadAll(r.Body)""", """		ctx, cancel, _ := contextFromHeaders(ctx, r.Header)
+		defer cancel()
+
+		req, err := ioutil.ReadAll(r.Body)""", "R1", "headers", "handler runs although -bin headers did not decode")
+v("C11", "stream-accepts-json", "httpgrpc/protocol_versions.go",
+  """	if mediaType == ApplicationJson {
+		// TODO: support half-duplix JSON streaming?
+		// https://en.wikipedia.org/wiki/JSON_streaming#Record_separator-delimited_JSON
+		return nil
+	}""", """	if mediaType == ApplicationJson {
+		return encoding.GetCodec("json")
+	}""", "R3", "table", "streaming handlers accept JSON frames")
+v("C11", "unary-codec-case-fold", "httpgrpc/protocol_versions.go",
+  """	if mediaType == UnaryRpcContentType_V1 {
+		return encoding.GetCodec(grpcproto.Name)
+	}
+
+	if mediaType == ApplicationJson {
+		return encoding.GetCodec("json")
+	}""", """	if mediaType == UnaryRpcContentType_V1 {
+		return encoding.GetCodec(grpcproto.Name)
+	}
+
+	if mediaType == ApplicationJson || mediaType == "text/json" {
+		return encoding.GetCodec("json")
+	}""", "R3", "table", "an extra media type is accepted")
+v("C11", "no-trailer-on-success", "httpgrpc/server.go",
+  """		if str.writeFailed {
+			// nothing else we can do
+			return
+		}
+""", """		if str.writeFailed || (err == nil && len(str.tr) == 0) {
+			// nothing else we can do
+			return
+		}
+""", "R4", "one-trailer", "successful streams without trailers end without the trailer frame")
+v("C11", "decode-error-internal", "httpgrpc/server.go",
+  "				return status.Error(codes.InvalidArgument, err.Error())", "				return status.Error(codes.Internal, err.Error())", "R5", "decode-error-code", "undecodable request reported as Internal")
+v("C11", "client-json-content-type", "httpgrpc/client.go",
+  '	h.Set("Content-Type", StreamRpcContentType_V1)', '	h.Set("Content-Type", UnaryRpcContentType_V1)', "R3", "NewStream:content-type", "client marks streams with the unary content type")
+v("C11", "handler-invoked-twice", "httpgrpc/server.go",
+  """		if streamInt != nil {
+			err = streamInt(svr, str, info, desc.Handler)
+		} else {
+			err = desc.Handler(svr, str)
+		}""", """		if streamInt != nil {
+			err = streamInt(svr, str, info, desc.Handler)
+		}
+		if streamInt == nil || err != nil {
+			err = desc.Handler(svr, str)
+		}""", "R2", "handler-once", "fallback runs the handler a second time after an interceptor error")
+
 
 def main():
     if os.path.isdir(OUT):
